@@ -85,6 +85,21 @@ OPERAND = [  # operand / receiver positions (Int and A only)
 ]
 
 
+# a non-nullable field that is never (or not yet) assigned in the constructor holds None at run time
+CTOR = [
+    ("ctor/never-assigned", False, "class C1\n    def f: Int\n    def __init__(self) =>\n        print(1)\n"),
+    ("ctor/assigned", True, "class C1\n    def f: Int\n    def __init__(self) =>\n        self.f := 1\n"),
+    ("ctor/nullable-unassigned", True, "class C1\n    def f: Int?\n    def __init__(self) =>\n        print(1)\n"),
+    ("ctor/read-before-assigned", False, "class C1\n    def f: Int\n    def g: Int\n    def __init__(self) =>\n        self.g := self.f + 1\n        self.f := 2\n"),
+    ("ctor/nested-write-only", False, "class P\n    def x: Int := 0\nclass C1\n    def origin: P\n    def __init__(self) =>\n        self.origin.x := 1\n"),
+    ("ctor/nested-write-before-assign", False, "class P\n    def x: Int := 0\nclass C1\n    def origin: P\n    def __init__(self) =>\n        self.origin.x := 1\n        self.origin := P()\n"),
+    ("ctor/nested-write-after-assign", True, "class P\n    def x: Int := 0\nclass C1\n    def origin: P\n    def __init__(self) =>\n        self.origin := P()\n        self.origin.x := 1\n"),
+    ("ctor/foreign-object-same-field", False, "class Cfg\n    def f: Int := 0\nclass C1\n    def f: Int\n    def __init__(self, c: Cfg) =>\n        c.f := 3\n"),
+    ("ctor/assigned-in-one-branch", False, "class C1\n    def f: Int\n    def __init__(self, c: Bool) =>\n        if c then\n            self.f := 1\n"),
+    ("ctor/assign-none", False, "class C1\n    def f: Int\n    def __init__(self) =>\n        self.f := None\n"),
+]
+
+
 def prelude(T):
     v = TYPES[T][0]
     return (TYPES[T][2] +
@@ -112,6 +127,7 @@ def cases():
                 out.append(("%s<-%s/%s/%s" % (T, S, name, cname), verdict, pre + ctx(b)))
         for n, (name, verdict, tmpl) in enumerate(SUB_FUN_POSITIONS):
             out.append(("%s<-%s/%s" % (T, S, name), verdict, TYPES[T][2] + spre + tmpl.replace("{T}", T).replace("{S}", S).replace("{n}", str(n))))
+    out += CTOR
     for name, verdict, T, body in OPERAND:
         for cname, ctx in CONTEXTS.items():
             out.append(("%s/%s/%s" % (T, name, cname), verdict, TYPES[T][2] + SUB.get(T, ("", "", ""))[2] + ctx(body)))
